@@ -104,7 +104,13 @@ func oracle(c Case) *ev.Verdict {
 	if esc := sut.Trap("RSchema", func() {
 		gotPat, _ = r.Pattern()
 		gotLen, _ = r.Len()
-		ex1, exErr = r.Example()
+		// (the caller owns what Example returns: it is overwritten before the next call)
+		var raw []byte
+		raw, exErr = r.Example()
+		ex1 = append([]byte{}, raw...)
+		for i := range raw {
+			raw[i] = '\x00'
+		}
 		ex2, _ = r.Example()
 		a, _ := r.GetAST()
 		astVal = a.Value
@@ -136,20 +142,24 @@ func oracle(c Case) *ev.Verdict {
 		return ev.V("example:no-match", "Example() of %q is %q (second call %q) which /%s/ does not match", s, ex1, ex2, pat)
 	}
 	// used as a user type
-	if !printableASCII(pat) || !printableASCII(string(ex1)) {
-		ev.Excluded("all", "type use skipped: pattern or example not printable ASCII")
+	if !utf8.ValidString(pat) || !utf8.Valid(ex1) {
+		ev.Excluded("all", "type use skipped: pattern or example not UTF-8 (no JSON spelling)")
 		return nil
 	}
 	probes := append([]string{string(ex1)}, c.Probes...)
-	for _, p := range probes {
-		if !printableASCII(p) {
+	for i, p := range probes {
+		if !utf8.ValidString(p) {
 			continue
 		}
 		lit, _ := json.Marshal(p)
 		root := jschema.New("@main", string(lit)+` // {type: "@r"}`)
 		var addErr, chkErr *sut.ErrInfo
+		typ := regex.New("@r", s)
+		if i == 0 {
+			typ = r // the object that has answered all the questions above
+		}
 		if esc := sut.Trap("type-use", func() {
-			addErr = sut.Describe(root.AddType("@r", regex.New("@r", s)))
+			addErr = sut.Describe(root.AddType("@r", typ))
 			chkErr = sut.Describe(root.Check())
 		}); esc != nil {
 			return ev.V("panic:type-use:"+esc.Frame, "using %q as a type panicked: %s", s, esc.Value)
